@@ -20,7 +20,8 @@ WrFailures(ev) ==
   LET b == ev.b
       urls == { b.exs[i].url : i \in 1..Len(b.exs) } \cup {b.primary, b.manifest}
       x == ExtractKnown(ev.file, urls)
-  IN (IF ev.wpanic THEN {"writer panics"} ELSE {})
+  \* a panic on a bundle that must be refused anyway is a (crude) refusal; on a writable bundle it is a failure
+  IN (IF ev.wpanic /\ ~Refused(b) THEN {"writer panics"} ELSE {})
   \cup (IF Refused(b) = ev.werr THEN {} ELSE {IF ev.werr THEN "writer refuses a bundle it must write" ELSE "writer accepts a bundle it must refuse"})
   \cup (IF ev.werr \/ Refused(b) THEN {}
         ELSE (IF ev.count = Len(ev.file) /\ ev.accepted = Len(ev.file) THEN {} ELSE {"returned byte count"})
